@@ -4,7 +4,8 @@
                out = the same for the written text, same[i] = the i-th tokens are lexically equivalent
                (identical up to number / escape notation; decided by the driver),
                cycles = Seq([load, modelEq, textEq]) for the following load/write cycles,
-               inScope = the input satisfies the preconditions of C05 *)
+               inScope = the input satisfies the preconditions of C05,
+               file = [ok, banner, eq]: A2lFile::write(path, banner) followed by load(path) (only recorded for C01) *)
 EXTENDS Integers, Sequences, TLC, Json, IOUtils
 
 Rec == ndJsonDeserialize(IOEnv.TRACE)
@@ -27,6 +28,8 @@ CyclesStable(ev) ==
     /\ Chk("ModelEqual", \A i \in 1..Len(ev.cycles) : ev.cycles[i].load = "ok" => ev.cycles[i].model_eq)
     /\ Chk("TextFixpoint", \A i \in 1..Len(ev.cycles) : ev.cycles[i].load = "ok" => ev.cycles[i].text_eq)
     /\ Chk("NoNewDiagnostics", \A i \in 1..Len(ev.cycles) : ev.cycles[i].load = "ok" => ev.cycles[i].diags <= ev.ndiags)
+    \* the file entry points: write(path, banner) puts the banner comment first, load(path) gives the model back
+    /\ "file" \in DOMAIN ev => Chk("FileWriteLoad", ev.file.ok /\ ev.file.banner /\ ev.file.eq)
 
 Verdict(ev) ==
     /\ ("C02" \in Judge => ContentPreserved(ev))
